@@ -85,11 +85,14 @@ func c11BlockID(tag string) types.BlockID {
 		PartSetHeader: types.PartSetHeader{Total: 1, Hash: crypto.Sha256([]byte("c11-psh-" + tag))}}
 }
 
+// c11WithSameHash adds the same-hash duplicate-vote items to the alphabet (set by TestVerifC11SameHash before the alphabet is built).
+var c11WithSameHash bool
+
 type c11Alphabet struct {
 	items        []*c11Item
 	byName       map[string]int
 	byWire       map[string]int // wire form of the tmproto.Evidence wrapper (what the pool stores) -> item
-	decodeRefuse []string // perturbations refused by the wire decoding (never reach the pool in production)
+	decodeRefuse []string       // perturbations refused by the wire decoding (never reach the pool in production)
 }
 
 func (al *c11Alphabet) add(it *c11Item) {
@@ -170,6 +173,19 @@ func (ch *c11Chain) c11AddDV(al *c11Alphabet, h int64, full bool) {
 		al.add(it)
 	}
 	put("genuine", "genuine", true, false, mk(a0(), b0(), vp, tp, ts))
+	// two votes of validator 1 for the same block hash with different part-set headers: different values all the same
+	// (only in part "samehash": it would otherwise double the base menu of the other parts)
+	if c11WithSameHash {
+		y2 := types.BlockID{Hash: x.Hash, PartSetHeader: types.PartSetHeader{Total: 2, Hash: crypto.Sha256([]byte(fmt.Sprintf("c11-psh-other-%d", h)))}}
+		lo, hi := x, y2
+		if strings.Compare(lo.Key(), hi.Key()) >= 0 {
+			lo, hi = hi, lo
+		}
+		ev := mk(ch.c11DVVote(1, c11ChainID, h, 0, pc, lo, 1), ch.c11DVVote(1, c11ChainID, h, 0, pc, hi, 1), powerOf(1, h), tp, ts)
+		it := &c11Item{Name: fmt.Sprintf("dv%d/genuine-same-hash", h), Class: "dv:genuine-same-hash-other-parts", Ev: ev, Base: true, Misb: fmt.Sprintf("dv-v1-h%d", h)}
+		it.Genuine, it.VoteA, it.VoteB = true, ev.VoteA.Copy(), ev.VoteB.Copy()
+		al.add(it)
+	}
 	// sign bytes do not cover the validator index: different bytes, same proven misbehaviour
 	{
 		a := a0()
